@@ -700,6 +700,18 @@ fn run(case: &[u64]) -> Result<Vec<u64>, BadCase> {
             evs.push((k as u64, key, e.b as u64));
             continue;
         }
+        if (41..=46).contains(&k) {
+            // polling-driver queue events: key field = id + 1 (0 = none), arg = fd | flags << 32
+            let key = if e.a == 0 {
+                0
+            } else if let Some(k) = live.get(&e.a) {
+                *k + 1
+            } else {
+                9_999_999
+            };
+            evs.push((k as u64, key, e.b as u64));
+            continue;
+        }
         if k >= 20 && k != verif::POOL_BUF {
             continue; // wake/enter events: not part of the key model
         }
